@@ -81,6 +81,7 @@ class Sched:
         self.verdict = None        # None | 'deadlock' | 'livelock'
         self.verdict_detail = None
         self.aborting = False
+        self.finished = False
         self._main = threading.Semaphore(0)
         self._by_ident = {}
         self.state_fn = state_fn
@@ -141,6 +142,8 @@ class Sched:
             if not t.thread.done.acquire(timeout=20):
                 raise RuntimeError('logical thread %s did not terminate' % t.name)
             _POOL['idle'].append(t.thread)
+        self.finished = True
+        self._by_ident.clear()
         if self.verdict == 'harness':
             raise self.verdict_detail
         return self
@@ -201,6 +204,8 @@ class Sched:
         self._main.release()
 
     def point(self, label='.'):
+        if self.finished:                   # a left-over object of a finished execution (finaliser, stale tracer)
+            return
         me = self.me()
         if me is None:                      # called from the harness thread outside an execution: no-op
             return
@@ -220,6 +225,8 @@ class Sched:
             raise Abort()
 
     def block_until(self, pred, label='wait'):
+        if self.finished:
+            return
         me = self.me()
         if me is None:
             if not pred():
